@@ -121,7 +121,7 @@ struct Samples {
     lowhash: Vec<(u64, Value)>,
 }
 
-fn hash64<T: Hash>(t: &T) -> u64 {
+pub fn hash64<T: Hash>(t: &T) -> u64 {
     let mut h = std::collections::hash_map::DefaultHasher::new();
     t.hash(&mut h);
     h.finish()
@@ -303,6 +303,25 @@ impl Ctx {
                 }
             }
         }
+    }
+
+    /// Results of an external engine (a libFuzzer campaign): `evals` executions, of which the
+    /// inputs identified by `distinct` (content hashes of what the engine kept as
+    /// coverage-distinct) count as non-trivial.
+    pub fn add_bulk(&self, sub: &str, evals: u64, distinct: impl Iterator<Item = u64>) {
+        self.evals.fetch_add(evals, Ordering::Relaxed);
+        let mut n = 0u64;
+        {
+            let mut nt = self.nontrivial.lock().unwrap();
+            for h in distinct {
+                if nt.insert(h) {
+                    n += 1;
+                }
+            }
+        }
+        let mut cl = self.classes.lock().unwrap();
+        *cl.entry(format!("{}:cases", sub)).or_insert(0) += evals;
+        *cl.entry(format!("{}:nontrivial", sub)).or_insert(0) += n;
     }
 
     /// Record a violation with its shrunk case; writes the replay file.
